@@ -72,6 +72,7 @@ package router
 //@             && len(resp.Questions[0].Name) == len(m.Questions[0].Name)
 //@             && bytesEq(resp.Questions[0].Name, 0, m.Questions[0].Name, 0, len(m.Questions[0].Name))
 //@   ensures [C12:no-opt] len(resp.Answers) == 0 && len(resp.Authorities) == 0 && len(resp.Additionals) == 0
+//@   ensures [C20:own-arrays] (resp.Questions == nil || fresh(resp.Questions)) && (resp.Answers == nil || fresh(resp.Answers)) && (resp.Authorities == nil || fresh(resp.Authorities)) && (resp.Additionals == nil || fresh(resp.Additionals))
 
 //@ func makeEmptyResp(q *dnsmsg.Question, rc *RequestContext, rcode uint16)
 //@   props C03 C10 C12 C01
@@ -235,6 +236,7 @@ package router
 //@   props C09 C01
 //@   requires m != nil && wfMsg(m) && smallMsg(m)
 //@   modifies m.Additionals, obj(m.Additionals)
+//@   ensures [C20:own-array-kept] m.Additionals == nil || sameObj(m.Additionals, old(m.Additionals)) || fresh(m.Additionals)
 //@   ensures wfMsg(m)
 //@   ensures err == nil ==> b != nil && fresh(b) && rootObj(b) && len(b) >= 12
 //@   ensures err != nil ==> b == nil
@@ -245,6 +247,7 @@ package router
 //@   props C09 C13 C01
 //@   requires m != nil && wfMsg(m) && smallMsg(m)
 //@   modifies m.Additionals, obj(m.Additionals)
+//@   ensures [C20:own-array-kept] m.Additionals == nil || sameObj(m.Additionals, old(m.Additionals)) || fresh(m.Additionals)
 //@   ensures wfMsg(m)
 //@   ensures err == nil ==> b != nil && fresh(b) && rootObj(b) && len(b) >= 14
 //@   ensures err != nil ==> b == nil
@@ -255,10 +258,11 @@ package router
 //@   props C03 C09 C13 C01
 //@   requires query != nil && wfMsg(query)
 //@   requires resp == nil || (wfMsg(resp) && smallMsg(resp))
-//@   modifies *
+//@   modifies pkgheaps(dnsmsg), bytes()
 //@   ensures [C03:always-a-response] b != nil && len(b) >= (tcp ? 14 : 12)
 //@   ensures [C09:limit] !tcp && size >= 512 && (resp == nil || old(optSmall(resp))) ==> len(b) <= (size > 65535 ? 65535 : size)
 //@   ensures [C13:framed] tcp && (resp == nil || old(optSmall(resp))) ==> BE16(b, 0) == uint16(len(b) - 2) && len(b) - 2 <= 65535
+//@   ensures [C20:query-left-intact] resp == nil ==> wfMsg(query)
 
 //@ func (r *router) handleServerReq(m *dnsmsg.Msg, rc *RequestContext)
 //@   props C03 C01
@@ -440,3 +444,37 @@ package router
 //@   loop 4:
 //@     modifies r.serverClosers, obj(r.serverClosers)
 //@     invariant closersOK(r) && (loopFresh(r.serverClosers) || sameObj(r.serverClosers, loopOld(r.serverClosers)))
+
+// ---- server_tcp_gnet_linux.go: reassembly of the length-prefixed stream (C13) -----------------------------
+//@ func getRequestContext() (rc *RequestContext)
+//@   trusted
+//@   modifies nothing
+//@   ensures rc != nil && fresh(rc) && rc.Response.Msg == nil
+//@ func releaseRequestContext(rc *RequestContext)
+//@   trusted
+//@   requires rc != nil
+//@   modifies *rc, pkgheaps(dnsmsg), bytes()
+
+// bytes gnet holds for the connection and has not yet handed to OnTraffic (uninterpreted; >= 0)
+//@ spec func gnetBuffered(c gnet.Conn) int
+// Reassembly state between two OnTraffic calls: no partial frame, or a partial 2-byte prefix, or a partial body,
+// in each case with at least one byte still missing.
+//@ spec func ccInv(cc *connCtx) bool = cc.buffer == nil || (0 <= cc.readN && cc.readN < len(cc.buffer) && (cc.readingHdr ==> len(cc.buffer) == 2))
+
+//@ func (e *gnetServer) OnTraffic(c gnet.Conn) (action gnet.Action)
+//@   props C13 C01
+//@   requires e != nil && c != nil && routerReady(e.r) && e.logger != nil && gnetBuffered(c) >= 0
+//@   ghost inb int = gnetBuffered(c)
+//@   ghost gcc *connCtx = nil
+//@   assumecall Context: typeIs(ret0, *connCtx) && ptrOf(ret0, connCtx) != nil && ptrOf(ret0, connCtx).idleTimer != nil && ccInv(ptrOf(ret0, connCtx))
+//@   aftercall Context: gcc = ptrOf(ret0, connCtx)
+//@   assumecall Next: (arg1 > inb ==> len(ret0) == 0) && (0 < arg1 && arg1 <= inb ==> len(ret0) == arg1) && (arg1 <= 0 ==> len(ret0) == inb)
+//@   aftercall Next: inb = inb - len(ret0)
+//@   assumecall InboundBuffered: ret0 == inb
+//@   modifies *
+//@   noterm
+//@   ensures [C13:reassembly-state-consistent] gcc != nil && ccInv(gcc) && inb >= 0
+//@   ensures [C13:returns-only-when-starved] action == gnet.None ==> (gcc.buffer == nil ? inb == 0 : inb < len(gcc.buffer) - gcc.readN)
+//@   callsite Write?: [C13:over-limit-answer-is-one-frame] len(arg1) >= 14 && len(arg1) - 2 <= 65535 && BE16(arg1, 0) == uint16(len(arg1) - 2)
+//@   loop 1:
+//@     invariant gcc == cc && cc != nil && cc.idleTimer != nil && ccInv(cc) && inb >= 0
